@@ -79,8 +79,16 @@ def check(ctx):
     ctx.sub(c02.refused_fill, 'C03.S2')       # reported P&L reflects accepted fills only
 
 
+def reads_through(caller, callee, depth):
+    """the P&L figures are functions of the position's state: every read-only step of the position module (a breakdown method, a record's property) is part of the formula"""
+    from ..symex import _writes_self
+    if default_policy(caller, callee, depth):
+        return True
+    return depth <= 6 and callee.path.endswith('portfolio/position.py') and callee.name != '__init__' and not _writes_self(callee)
+
+
 def single(ctx, prop, orc, case):
-    ps = summarise(ctx, 'Position.' + prop, policy=default_policy, oracle=orc)
+    ps = summarise(ctx, 'Position.' + prop, policy=reads_through, oracle=orc)
     if any(p.outcome != 'return' for p in ps) or not ps or len(ps) > 8:
         ctx.undecided('C03.S1', '%s returns a figure on every path in case "%s"' % (prop, case), ctx.fn('Position.' + prop).site(),
                       'paths: %s' % [p.describe()[:120] for p in ps][:4])
